@@ -1730,13 +1730,16 @@ class Data(BaseCartesianData):
         # later we will need to pad out the result of compute_statistic.
         subarray_slices = None
 
-        chunk_view = None
         if subset_state:
             if isinstance(subset_state, SliceSubsetState) and view is None:
                 mask = None
                 data = subset_state.to_array(self, cid)
             else:
                 mask = subset_state.to_mask(self, view)
+
+                # Shape of the mask (and hence of the data) for the requested
+                # view, needed to pad the result if we use a subarray below.
+                full_mask_shape = mask.shape
 
                 unbroadcast_mask = unbroadcast(mask)
 
@@ -1803,8 +1806,6 @@ class Data(BaseCartesianData):
                                 mask_idim += 1
                             else:
                                 new_view.append(view[idim])
-                        # This is the chunk view, which we'll need later
-                        chunk_view = view
                         view = tuple(new_view)
                     else:  # pragma: nocover
                         # This should probably never happen, but just in case!
@@ -1815,6 +1816,10 @@ class Data(BaseCartesianData):
                         # then also take into account the subarray slices in this
                         # case.
                         mask = mask[subarray_slices]
+                    else:
+                        # The data and mask cover the whole view, so the result
+                        # does not need to be padded.
+                        subarray_slices = None
 
                     data = self.get_data(cid, view)
 
@@ -1866,15 +1871,18 @@ class Data(BaseCartesianData):
             # need to do anything, and this is covered by the first clause
             # of the if statement above. Likewise if a view was specified,
             # only the result within the view is returned.
+            # Note that the axes refer to the dimensions of the mask for the
+            # view, which has fewer dimensions than the data if the view
+            # contains integers.
             if not isinstance(axis, tuple):
                 axis = (axis,)
-            result_slices = tuple([subarray_slices[idim] for idim in range(self.ndim) if idim not in axis])
+            mask_ndim = len(full_mask_shape)
+            result_slices = tuple([subarray_slices[idim] for idim in range(mask_ndim) if idim not in axis])
+            full_shape = [full_mask_shape[idim] for idim in range(mask_ndim) if idim not in axis]
 
-            if chunk_view is None:
-                full_shape = [self.shape[idim] for idim in range(self.ndim) if idim not in axis]
-            else:
-                chunk_shape = subset_state.to_mask(self, chunk_view).shape
-                full_shape = [chunk_shape[idim] for idim in range(self.ndim) if idim not in axis]
+            if len(full_shape) == 0:
+                # All dimensions were collapsed so there is nothing to pad
+                return result
 
             full_result = np.zeros(full_shape) * np.nan
             full_result[result_slices] = result
